@@ -41,8 +41,8 @@ def bn_wrapper(name, mom):
     )
 
 
-def bn_cfg(maxu, unbiased=True, props=True):
-    s = "SPECIFICATION Spec\nCONSTANTS\n Batches <- MCBatches\n Momentum <- MCMomentum\n MaxUpdates = %d\n Unbiased = %s\n" % (maxu, "TRUE" if unbiased else "FALSE")
+def bn_cfg(maxu, unbiased=True, props=True, with_load=False):
+    s = "SPECIFICATION Spec\nCONSTANTS\n Batches <- MCBatches\n Momentum <- MCMomentum\n MaxUpdates = %d\n Unbiased = %s\n WithLoad = %s\n" % (maxu, "TRUE" if unbiased else "FALSE", "TRUE" if with_load else "FALSE")
     if props:
         s += "INVARIANT TypeOK\nINVARIANT RunningBounded\n" + "".join("PROPERTY %s\n" % p for p in BN_PROPS)
     return s
@@ -111,6 +111,16 @@ class Host:
             scramble(self.m)
         self.box = CompositeTransform([self.m]) if self.variant == "parent" else None
         (self.box if self.box is not None else self.m).load_state_dict(sd)
+
+
+    def load_from(self, donor):
+        """load_state_dict into the existing object (through the container in the parent variant)."""
+        from nflows.transforms.base import CompositeTransform
+
+        if self.box is not None:
+            self.box.load_state_dict({k: v.clone() for k, v in CompositeTransform([donor]).state_dict().items()})
+        else:
+            self.m.load_state_dict({k: v.clone() for k, v in donor.state_dict().items()})
 
 
 VARIANTS = ["direct", "train_arg", "parent"]
@@ -264,6 +274,11 @@ def bn_walk_task(task):
                     out, lad = m.forward(B[int(args[0])].clone())
                 elif name == "Inverse":
                     out, lad = m.inverse(B[int(args[0])].clone())
+                elif name == "LoadDonor":
+                    donor = fresh()
+                    donor.train()
+                    donor.forward(B[int(args[0])].clone())
+                    host.load_from(donor)
             except Exception as e:  # noqa
                 exc = e
 
@@ -354,18 +369,19 @@ def main(run, replay=None):
                 run.note_drift("ActNorm initialises with the biased standard deviation (pinned tree: unbiased)")
     run.sample({"layer": "ActNorm", "walk_prefix": [[n, list(a), dict(d["params"])] for n, a, d in walks[0][:8]]})
     # ---------------- BatchNorm
-    configs = [(Fraction(1, 2), 4), (Fraction(1, 10), 3)]
+    # (momentum, MaxUpdates, with load_state_dict into the live layer)
+    configs = [(Fraction(1, 2), 4, False), (Fraction(1, 10), 3, False), (Fraction(1, 4), 1, True)]
     if thorough:
-        configs = [(Fraction(1, 2), 6), (Fraction(1, 10), 4), (Fraction(1, 4), 5)]
-    for mom, maxu in configs:
+        configs = [(Fraction(1, 2), 6, False), (Fraction(1, 10), 4, False), (Fraction(1, 4), 5, False), (Fraction(1, 2), 2, True)]
+    for mom, maxu, with_load in configs:
         name = "MC_BN_%d_%d" % (mom.numerator, mom.denominator)
-        res = T.run_tlc(name, bn_cfg(maxu), wrapper=bn_wrapper(name, mom), dot=True, name=name)
+        res = T.run_tlc(name, bn_cfg(maxu, with_load=with_load), wrapper=bn_wrapper(name, mom), dot=True, name=name)
         run.model_must_hold(res, name)
-        run.add_tlc(res, "BatchNormLife momentum=%s maxupdates=%d" % (mom, maxu), require_actions=["Forward", "Inverse", "SaveLoadFresh", "Train", "Eval"])
+        run.add_tlc(res, "BatchNormLife momentum=%s maxupdates=%d load=%s" % (mom, maxu, with_load), require_actions=["Forward", "Inverse", "SaveLoadFresh", "Train", "Eval"] + (["LoadDonor"] if with_load else []))
         g = parse_dot(res.dot)
         walks = annotate(g, covering_walks(g, g.init[0]))
         for e in g.edges:
-            if e[2] in ("Forward", "Inverse", "SaveLoadFresh"):
+            if e[2] in ("Forward", "Inverse", "SaveLoadFresh", "LoadDonor"):
                 run.nontrivial.add((name,) + e)
         # the layer's own eps: the default and a large one (alternating over the chunks; thorough: both)
         tasks = [(ch, mom, run.seed, dt, variant, e) for dt in (["float32", "float64"] if thorough else ["float32"]) for vi, variant in enumerate(VARIANTS) for ci, ch in enumerate(chunks(walks, 6))
@@ -377,7 +393,7 @@ def main(run, replay=None):
                 bfails += out["fails"]
         if bfails and all(f["clause"] in ("running_var", "output", "logabsdet") for f in bfails):
             # the property does not fix the variance kind: retry against the biased-variance model
-            res2 = T.run_tlc(name, bn_cfg(maxu, unbiased=False, props=False), wrapper=bn_wrapper(name, mom), dot=True, name=name + "_biased", coverage=False)
+            res2 = T.run_tlc(name, bn_cfg(maxu, unbiased=False, props=False, with_load=with_load), wrapper=bn_wrapper(name, mom), dot=True, name=name + "_biased", coverage=False)
             g2 = parse_dot(res2.dot)
             walks2 = annotate(g2, covering_walks(g2, g2.init[0]))
             b2 = []
@@ -403,7 +419,7 @@ def main(run, replay=None):
     run.extra["lockstep_steps"] = run.evaluations
     run.assumptions = [
         "the reference model is the documented behaviour (property quantifier); the variance kind (biased / unbiased) is not fixed by the property and either is accepted if used consistently",
-        "BatchNorm histories bounded by MaxUpdates training-mode forwards (exact denominators), three integer batches; ActNorm over three batches (two 2-D, one image)",
+        "BatchNorm histories bounded by MaxUpdates training-mode forwards (exact denominators), four integer batches (one far from the origin), a separate configuration with load_state_dict into the live layer; ActNorm over four batches (two 2-D, an image batch, a single image)",
         "float comparisons: running statistics 2e-5 (float32), outputs 5e-3 relative (eps=1e-5 amplifies rounding when the running variance is 0)",
     ]
 
@@ -415,7 +431,9 @@ def _history_walk(c):
     else:
         mom = Fraction(*c["momentum"])
         name = "MC_BN_%d_%d" % (mom.numerator, mom.denominator)
-        res = T.run_tlc(name, bn_cfg(6, props=False), wrapper=bn_wrapper(name, mom), dot=True, coverage=False)
+        loads = any(h[0] == "LoadDonor" for h in c["history"])
+        nupd = sum(1 for h in c["history"] if h[0] == "Forward")
+        res = T.run_tlc(name, bn_cfg(min(nupd, 2) if loads else 6, props=False, with_load=loads), wrapper=bn_wrapper(name, mom), dot=True, coverage=False)
     g = parse_dot(res.dot)
     cur = g.init[0]
     walk = []
